@@ -4,7 +4,7 @@
 From Coq Require Import List ZArith Bool.
 From WebpGen Require Tables Consts.
 From Webp Require Import Vp8.Vp8Bool Vp8.Vp8Tables Vp8.Vp8Syntax Vp8.Vp8Kernels Vp8.Vp8KernelProofs Vp8.Vp8Upsample
-  Vp8.Vp8BoolAbs Vp8.Vp8BoolEnc Vp8.Vp8SyntaxRT Vp8.Vp8TokenRT Vp8.Vp8ModeRT Vp8.Vp8Recon Vp8.Vp8Filter Vp8.Vp8Spec Vp8.Vp8FrameRT Vp8.Vp8RowOrder Vp8.Vp8GoReader Vp8.Vp8InlineCoeffs Vp8.Vp8InlineTree.
+  Vp8.Vp8BoolAbs Vp8.Vp8BoolEnc Vp8.Vp8SyntaxRT Vp8.Vp8TokenRT Vp8.Vp8ModeRT Vp8.Vp8Recon Vp8.Vp8Filter Vp8.Vp8Spec Vp8.Vp8FrameRT Vp8.Vp8RowOrder Vp8.Vp8GoReader Vp8.Vp8InlineCoeffs Vp8.Vp8InlineTree Vp8.Vp8FlatCache.
 From Webp Require Riff.PrefixBitio.
 From Webp Require Import Base.Res.
 Import ListNotations.
@@ -348,3 +348,83 @@ Theorem C04_mode_constants :
    WebpGen.Consts.dsp_yuvMask; WebpGen.Consts.dsp_yuvFix2] = [19077; 26149; 6419; 13320; 33050; 14234; 8708; 17685; 16383; 6].
 Proof. repeat split; reflexivity. Qed.
 Print Assumptions C04_mode_constants.
+
+(** ** Flat buffers.  reconstructRow's transfer loops into the output cache
+    ("yOut := dec.cacheY[mbX*16 + mbY*16*yStride:]; for j { copy(yOut[j*yStride:...], yDst[j*bps:...]) }",
+    8 for U and V; yStride = 16*mbW) as nested counted loops over a flat list with Go's copy:
+    after the loops over all macroblocks the flat buffer is the concatenation of the rows of the
+    plane the macroblock-grid model assembles (Vp8Filter.plane_rows), i.e. cell y*stride + x holds
+    sample (x mod n, y mod n) of macroblock (x / n, y / n). *)
+Theorem C04_cache_store_flat_eq : forall n W H sel rows c,
+  0 < n -> 0 < W -> 0 < H -> grid_ok n W H sel rows ->
+  length c = Z.to_nat (n * W * (n * H)) ->
+  store_frame n W H sel rows c = concat (plane_rows sel (Z.to_nat n) rows).
+Proof. exact store_frame_eq. Qed.
+Print Assumptions C04_cache_store_flat_eq.
+
+(** The work buffer dec.yuvB (stride BPS = 32, 26 rows; luma block at cell (8, 1) with 4 above-right
+    samples, U at (8, 18), V at (24, 18): generated constants) and the invariant of reconstructRow's
+    macroblock loop, as loops over the flat buffer: start of a row (129 column, corner, 127 row on
+    the first row) gives the entry state of macroblock 0; from an entry state, the preparation steps
+    (rotation of the 4 left columns for j = -1..n-1, top samples, above-right samples of the next
+    macroblock or the repeated last top sample on the right-most one, their copies beside rows 3, 7,
+    11) leave in the cells the predictors read exactly the grid model's border values
+    (Vp8Recon.mk_edges, cell by cell in C04_mk_edges_y_cells); storing the reconstructed block and
+    stashing its last row gives the entry state of the next macroblock. *)
+Theorem C04_yuvb_layout :
+  WebpGen.Consts.lossy_BPS = 32 /\ WebpGen.Consts.lossy_YUVSize = 32 * 26 /\
+  WebpGen.Consts.lossy_YOff = 1 * 32 + 8 /\ WebpGen.Consts.lossy_UOff = 18 * 32 + 8 /\
+  WebpGen.Consts.lossy_VOff = 18 * 32 + 24 /\
+  geo_ok 32 26 16 4 8 1 /\ geo_ok 32 26 8 0 8 18 /\ geo_ok 32 26 8 0 24 18.
+Proof. exact yuvb_layout. Qed.
+Print Assumptions C04_yuvb_layout.
+
+Theorem C04_workbuf_row_start : forall S Ht n tr X0 Y0 mby mbW tops c0 abv_row prev,
+  geo_ok S Ht n tr X0 Y0 -> 0 <= mby -> length c0 = Z.to_nat (S * Ht) ->
+  (0 < mby -> forall k, 0 <= k < mbW ->
+     Z.of_nat (length (nth (Z.to_nat k) tops [])) = n /\
+     forall i, 0 <= i < n -> fget (nth (Z.to_nat k) tops []) i = abv_row k i) ->
+  entry_state S Ht n tr X0 Y0 0 mby mbW tops (init_corner S n tr X0 Y0 mby (init_left S n X0 Y0 c0)) abv_row prev.
+Proof. exact workbuf_row_start. Qed.
+Print Assumptions C04_workbuf_row_start.
+
+Theorem C04_workbuf_prep_edges : forall S Ht n tr X0 Y0 mbx mby mbW is4 tops c abv_row prev,
+  geo_ok S Ht n tr X0 Y0 -> 0 <= mbx < mbW -> 0 <= mby ->
+  entry_state S Ht n tr X0 Y0 mbx mby mbW tops c abv_row prev ->
+  let P := prep S n tr X0 Y0 mbx mby mbW is4 tops c in
+  length P = length c /\ context_cells S n tr X0 Y0 mbx mby mbW is4 P abv_row prev.
+Proof. exact workbuf_prep_edges. Qed.
+Print Assumptions C04_workbuf_prep_edges.
+
+Theorem C04_workbuf_next_entry : forall S Ht n tr X0 Y0 mbx mby mbW is4 tops tops' c abv_row prev blk,
+  geo_ok S Ht n tr X0 Y0 -> 0 <= mbx < mbW -> 0 <= mby ->
+  entry_state S Ht n tr X0 Y0 mbx mby mbW tops c abv_row prev ->
+  blk_ok n blk ->
+  (forall k, mbx < k -> nth (Z.to_nat k) tops' [] = nth (Z.to_nat k) tops []) ->
+  entry_state S Ht n tr X0 Y0 (mbx + 1) mby mbW tops'
+    (store_block S n (Y0 * S + X0) blk (prep S n tr X0 Y0 mbx mby mbW is4 tops c))
+    abv_row (fun i j => fget (nth (Z.to_nat j) blk []) i).
+Proof. exact workbuf_next_entry. Qed.
+Print Assumptions C04_workbuf_next_entry.
+
+Theorem C04_mk_edges_y_cells : forall above left al ar : option mbpix,
+  (forall p, In (Some p) [above; left; al; ar] -> blk_ok 16 (px_y p)) ->
+  let e := mk_edges above left al ar in
+  (forall i, 0 <= i < 16 ->
+     fget (e_above_y e) i = match above with Some p => fget (nth 15 (px_y p) []) i | None => 127 end) /\
+  (forall j, 0 <= j < 16 ->
+     fget (e_left_y e) j = match left with Some p => fget (nth (Z.to_nat j) (px_y p) []) 15 | None => 129 end) /\
+  e_corner_y e = match above with
+                 | None => 127
+                 | Some _ => match al with Some p => fget (nth 15 (px_y p) []) 15 | None => 129 end
+                 end /\
+  (forall i, 0 <= i < 4 ->
+     fget (e_ar e) i = match above with
+                       | None => 127
+                       | Some p => match ar with
+                                   | Some q => fget (nth 15 (px_y q) []) i
+                                   | None => fget (nth 15 (px_y p) []) 15
+                                   end
+                       end).
+Proof. exact mk_edges_y_cells. Qed.
+Print Assumptions C04_mk_edges_y_cells.
